@@ -44,7 +44,11 @@ SEARCH_N = 60
 SHARD = 20
 DRIVER_TIMEOUT = 1500
 COQ_FILES = ["theories/C12/Props.v", "theories/C12/Link.v"]
-RULE = ("round 2 adds: histories over 2-4 addresses in one process with server restarts (clients re-dial), kv histories with "
+RULE = ("round 4 adds: construction options node/cluster x pass x tls (New(addr, options...) and Config.NewRedis) against "
+        "servers that enforce the password / TLS, with the raw twin configured with the same arguments, incl. misconfigured "
+        "pairs; kv shards with per-shard type/pass/tls; blocking-node histories (create -> BLPop family -> close -> ordinary "
+        "commands on the same *Redis, a second *Redis of the address and the still-open node); per-command runs of 30 "
+        "redis.Nil / cancelled replies on a fresh handle with the real breaker for every guarded method; round 2 adds: histories over 2-4 addresses in one process with server restarts (clients re-dial), kv histories with "
         "shard restarts and key-placement snapshots, one dead-context stream per table (every context-form method with a "
         "cancelled / expired context after a mark; keyspace frozen), SetSha/GetSha streams, EvalSha via the script cache; "
         "differential histories of 30-60 operations: 55% redis.Redis (all context-form methods except GeoHash, in "
@@ -58,7 +62,9 @@ TRUSTED = ["miniredis v2.23.1 as the server semantics of the twin runs (the theo
            "harness/c12gen (own translator: go/parser -> C12_Table.v) and the raw side of the drivers "
            "(internal/verifdrv/c12raw.go), which restates the documented correspondence in Go",
            "int = int64 (64-bit platform): CInt is the identity"]
-ASSUMPTIONS = ["raw_err_zero: go-redis returns the zero value together with any error (hypothesis of c12_transparent)",
+ASSUMPTIONS = ["blocking nodes are opened on non-TLS configurations only (CreateBlockingNode drops the TLS setting: reported defect; "
+               "VERIF_C12_TLS_BLOCKING=1 includes them)",
+               "raw_err_zero: go-redis returns the zero value together with any error (hypothesis of c12_transparent)",
                "key_local + total deterministic owner function (C13) for c12_shard_equiv / c12_multidel; SPop/SRandMember "
                "(server-side randomness) are compared on the single-server twin only",
                "blocking BLPop* compared only when an element is present; GeoHash unsupported by miniredis (table only)",
@@ -350,7 +356,10 @@ def _multi(rng):
     for i in range(n):      # every wrapper speaks once more after the last restart
         for m in ("IncrByCtx", "RPushCtx", "GetCtx"):
             ops.append({"m": m, "w": i, "form": "ctx", "a": REDIS_OPS[m](rng)})
-    return {"kind": "diff", "n": n, "seed": rng.randrange(1 << 16), "ops": ops}
+    c = {"kind": "diff", "n": n, "seed": rng.randrange(1 << 16), "ops": ops}
+    if rng.random() < 0.3:
+        c["opts"] = _opts(rng, False, True, False)
+    return c
 
 
 def _dead(rng, kv):
@@ -358,6 +367,8 @@ def _dead(rng, kv):
     set-up; the server must not be touched after the mark"""
     ops_tbl = KV_OPS if kv else REDIS_OPS
     ops = [{"m": m, "form": "ctx", "a": ops_tbl[m](rng)} for m in [rng.choice([w for w in WRITERS if w in ops_tbl]) for _ in range(16)]]
+    if not kv:
+        ops.append({"m": "#bopen", "slot": 0, "form": "ctx", "a": []})
     ops.append({"m": "#mark", "form": "ctx", "a": []})
     names = sorted(ops_tbl)
     rng.shuffle(names)
@@ -394,22 +405,144 @@ def _with_restarts(rng, case):
     return case
 
 
+# ---- round 4: construction options, shard configurations, blocking nodes, per-command breaker runs ----
+# CreateBlockingNode does not pass the TLS setting on (blockingnode.go: no TLSConfig): a blocking node of a WithTLS()
+# instance cannot reach a TLS-only server.  Reported as a defect; until it is fixed (or recorded as a known finding
+# under class blocking-node-ignores-tls) blocking nodes are only opened on non-TLS configurations.
+TLS_BLOCKING = os.environ.get("VERIF_C12_TLS_BLOCKING") == "1"
+
+
+def _opts(rng, cluster=None, pw=None, tls=None):
+    cluster = rng.random() < 0.5 if cluster is None else cluster
+    pw = rng.random() < 0.6 if pw is None else pw
+    tls = rng.random() < 0.3 if tls is None else tls
+    p = rng.choice(["pw", "s3cret", "p w"]) if pw else ""
+    return {"cluster": cluster, "pass": p, "tls": tls, "spass": p, "stls": tls, "via": "config" if rng.random() < 0.35 else ""}
+
+
+def _misconfigured(rng):
+    """client and server disagree (wrong / missing / unexpected password): the wrapper must fail like the raw client"""
+    o = _opts(rng, tls=False)
+    o["spass"], o["pass"] = rng.choice([("pw", "bad"), ("pw", ""), ("", "pw")])
+    ops = [{"m": m, "form": rng.choice(["ctx", "plain"]), "a": REDIS_OPS[m](rng)} for m in
+           [rng.choice(["SetCtx", "GetCtx", "IncrCtx", "HSetCtx", "PingCtx", "RPopCtx", "PipelinedCtx"]) for _ in range(6)]]
+    return {"kind": "diff", "n": 1, "seed": rng.randrange(1 << 16), "opts": o, "ops": ops}
+
+
+def _with_blocking(rng, case):
+    """create blocking nodes -> BLPop family -> close one -> ordinary commands on the same address (same *Redis, a
+    second *Redis of that address, the still-open node) -> ..."""
+    if case.get("opts", {}).get("tls") and not TLS_BLOCKING:
+        return case
+    ops = case["ops"]
+    pos = min(len(ops), rng.randint(6, 12))
+    blk = lambda slot: {"m": rng.choice(["BLPopCtx", "BLPopExCtx", "BLPopWithTimeoutCtx"]), "slot": slot, "form": rng.choice(["ctx", "plain"])}
+    seq = []
+    for l in POOL["list"]:
+        seq.append({"m": "RPushCtx", "form": "ctx", "a": [l, [rng.choice(VALS) for _ in range(6)]]})
+    seq += [{"m": "#bopen", "slot": 0, "form": "ctx", "a": []}, {"m": "#bopen", "slot": 1, "form": "ctx", "a": []}]
+    for rnd in range(rng.randint(2, 3)):
+        victim = rnd % 2
+        for _ in range(rng.randint(1, 3)):
+            b = blk(rng.randrange(2))
+            b["a"] = REDIS_OPS[b["m"]](rng)
+            b["a"][-1] = rng.choice(POOL["list"])
+            seq.append(b)
+        seq.append({"m": "#bclose", "slot": victim, "form": "ctx", "a": []})
+        for _ in range(rng.randint(3, 6)):       # ordinary commands right after the close
+            m = rng.choice(["GetCtx", "SetCtx", "IncrCtx", "LLenCtx", "RPushCtx", "HSetCtx", "PingCtx", "LRangeCtx"])
+            seq.append({"m": m, "form": rng.choice(["ctx", "plain"]), "alt": rng.random() < 0.4, "a": REDIS_OPS[m](rng)})
+        b = blk(1 - victim)                      # the other node is still open
+        b["a"] = REDIS_OPS[b["m"]](rng)
+        b["a"][-1] = rng.choice(POOL["list"])
+        seq.append(b)
+        seq.append({"m": "#bopen", "slot": victim, "form": "ctx", "a": []})
+    case["ops"] = ops[:pos] + seq + ops[pos:]
+    for op in case["ops"][pos + len(seq):]:
+        if op["m"].startswith("BLPop"):
+            op["slot"] = rng.randrange(2)
+        elif not op["m"].startswith("#") and rng.random() < 0.15:
+            op["alt"] = True
+    return case
+
+
+def _diff(rng, opts=None, nops=None, blocking=None):
+    c = {"kind": "diff", "n": 1, "seed": rng.randrange(1 << 16), "ops": _history(rng, REDIS_OPS, nops or rng.randint(30, 60))}
+    if opts is None and rng.random() < 0.45:
+        opts = _opts(rng)
+    if opts:
+        c["opts"] = opts
+    if rng.random() < 0.4:
+        c = _with_cached_eval(rng, c)
+    if blocking if blocking is not None else rng.random() < 0.35:
+        c = _with_blocking(rng, c)
+    return c
+
+
+def _shards(rng, n, fixed=None):
+    out = []
+    for i in range(n):
+        if fixed:
+            cl, pw, tl = fixed[i % len(fixed)]
+        else:
+            cl, pw, tl = rng.random() < 0.5, rng.random() < 0.6, rng.random() < 0.25
+        out.append({"cluster": cl, "pass": rng.choice(["pw", "s3cret"]) if pw else "", "tls": tl})
+    return out
+
+
+def _kv(rng, shards=None, weights=None, nops=None):
+    c = {"kind": "kv", "seed": rng.randrange(1 << 16), "weights": weights or _weights(rng),
+         "ops": _history(rng, KV_OPS, nops or rng.randint(30, 60))}
+    if shards is None and rng.random() < 0.5:
+        shards = _shards(rng, len(c["weights"]))
+    if shards:
+        c["shards"] = shards
+    return _with_restarts(rng, c) if rng.random() < 0.4 else c
+
+
+NIL_RUNS = [("HGetCtx", ["absent", "f"]), ("LPopCtx", ["absent"]), ("RPopCtx", ["absent"]), ("LIndexCtx", ["absent", 0]),
+            ("SPopCtx", ["absent"]), ("ZScoreCtx", ["absent", "m"]), ("ZRankCtx", ["absent", "m"]), ("ZRevRankCtx", ["absent", "m"]),
+            ("GetCtx", ["absent"]), ("GetSetCtx", ["absent2", "v"]), ("EvalCtx", [0, ["absent"], []]), ("EvalCtx", [4, ["absent"], ["f"]])]
+UNGUARDED = ("BLPopCtx", "BLPopExCtx", "BLPopWithTimeoutCtx", "ScriptLoadCtx")
+
+
+def _runs(rng):
+    """per-command breaker acceptance: every redis.Nil-capable command 30 times in a row on an absent key, and EVERY
+    guarded context-form method 30 times in a row with a cancelled context, each on a fresh handle with the real
+    breaker, then a probe on that handle"""
+    ops = [{"m": m, "form": "ctx", "a": a} for m, a in NIL_RUNS]
+    ops += [{"m": m, "form": "canceled", "a": REDIS_OPS[m](rng)} for m in sorted(REDIS_OPS) if m not in UNGUARDED]
+    return {"kind": "runs", "n": 30, "ops": ops}
+
+
+def _fixed_round4(rng):
+    """pass x {node, cluster} (and a TLS combination) are in every run, for the wrapper and for the sharded store"""
+    out = [_diff(rng, _opts(rng, False, True, False), 30, blocking=True), _diff(rng, _opts(rng, True, True, False), 30, blocking=True),
+           _diff(rng, _opts(rng, False, False, True), 25, blocking=False), _diff(rng, _opts(rng, True, True, True), 25, blocking=False),
+           _misconfigured(rng),
+           _kv(rng, _shards(rng, 2, [(False, True, False), (True, True, False)]), [100, 100], 40),
+           _kv(rng, _shards(rng, 3, [(True, True, True), (False, True, False), (True, False, True)]), [100, 50, 100], 40),
+           _runs(rng)]
+    return out
+
+
 def generate(rng, tier, n):
     cases = []
     nb = 1 if tier in ("quick", "search") else max(2, n // 200)
-    fixed = [{"kind": "breaker", "n": 30}] * nb + [_dead(rng, False), _dead(rng, True)] * nb + [_sha(rng) for _ in range(4 * nb)]
+    fixed = []
+    for _ in range(nb):
+        fixed += [{"kind": "breaker", "n": 30}, _dead(rng, False), _dead(rng, True)] + [_sha(rng) for _ in range(4)] + _fixed_round4(rng)
     cases.extend(fixed[:n])
     while len(cases) < n:
         x = rng.random()
-        if x < 0.42:
-            c = {"kind": "diff", "n": 1, "seed": rng.randrange(1 << 16), "ops": _history(rng, REDIS_OPS, rng.randint(30, 60))}
-            cases.append(_with_cached_eval(rng, c) if rng.random() < 0.4 else c)
+        if x < 0.40:
+            cases.append(_diff(rng))
+        elif x < 0.43:
+            cases.append(_misconfigured(rng))
         elif x < 0.58:
             cases.append(_multi(rng))
         else:
-            c = {"kind": "kv", "seed": rng.randrange(1 << 16), "weights": _weights(rng),
-                 "ops": _history(rng, KV_OPS, rng.randint(30, 60))}
-            cases.append(_with_restarts(rng, c) if rng.random() < 0.4 else c)
+            cases.append(_kv(rng))
     return cases
 
 
@@ -427,6 +560,12 @@ def search(rng, problems):
     cases += [_multi(rng) for _ in range(6)]
     cases += [_with_restarts(rng, {"kind": "kv", "seed": rng.randrange(1 << 16), "weights": [100, 100, 50],
                                    "ops": _history(rng, KV_OPS, 30)}) for _ in range(4)]
+    cases += _fixed_round4(rng)
+    for cl in (False, True):
+        for pw in (False, True):
+            for tl in (False, True):
+                cases.append(_diff(rng, _opts(rng, cl, pw, tl), 25, blocking=not tl))
+                cases.append(_kv(rng, _shards(rng, 2, [(cl, pw, tl), (not cl, True, False)]), [100, 100], 30))
     return cases
 
 
@@ -514,6 +653,9 @@ def encode(case, obs):
     if case["kind"] == "breaker":
         ph = [clist([cpair(enc_err(e), cnat(TOLD[t])) for e, t in obs[k]]) for k in ("nil", "canceled", "dead")]
         return "mkcase 2%%nat [] [] [] %s %s" % (clist(ph), TAIL0)
+    if case["kind"] == "runs":
+        runs = [clist([cpair(enc_err(e), cnat(TOLD[t])) for e, t in run]) for run in obs["runs"]]
+        return "mkcase 4%%nat [] [] [] %s %s" % (clist(runs), TAIL0)
     if case["kind"] == "sha":
         ops = []
         for op, o in zip(case["ops"], obs["sha"]):
@@ -549,6 +691,8 @@ def _executed(obs):
 def nontrivial(case, obs):
     if case["kind"] == "breaker":
         return any(e == "Unavailable" for e, _ in obs.get("dead", []))
+    if case["kind"] == "runs":
+        return any(e == "Nil" for run in obs.get("runs", []) for e, _ in run) and any(e == "Canceled" for run in obs.get("runs", []) for e, _ in run)
     if case["kind"] == "sha":
         got = [o for op, o in zip(case["ops"], obs.get("sha", [])) if op["m"] == "get"]
         return any(o is False for o in got) and len({o for o in got if o}) >= 2
@@ -565,6 +709,16 @@ def bucket(case, obs):
         return out
     if case["kind"] == "sha":
         return out + ["sha:" + op["m"] for op in case["ops"]]
+    if case["kind"] == "runs":
+        return out + ["run:%s:%s" % (op["form"], op["m"]) for op in case["ops"]]
+    o = case.get("opts")
+    if o:
+        out.append("opts:%s%s%s%s%s" % ("cluster" if o["cluster"] else "node", "+pass" if o["pass"] else "", "+tls" if o["tls"] else "",
+                                        ":via-config" if o.get("via") else "", "" if (o["pass"], o["tls"]) == (o["spass"], o["stls"]) else ":MISCONFIGURED"))
+    for sh in case.get("shards", []):
+        out.append("shard:%s%s%s" % ("cluster" if sh["cluster"] else "node", "+pass" if sh["pass"] else "", "+tls" if sh["tls"] else ""))
+    if any(op.get("alt") for op in case.get("ops", [])):
+        out.append("second-handle-same-address")
     if case.get("dead"):
         out.append("stream:dead-context")
     if case.get("n", 1) > 1:
@@ -585,7 +739,26 @@ def bucket(case, obs):
     return out
 
 
+def classify(case, obs):
+    """blocking-node-ignores-tls: on a TLS configuration the first disagreement is a BLPop-family call that fails with a
+    connection error on the wrapper's blocking node while the raw client (same arguments, TLS) succeeds"""
+    if case.get("kind") != "diff" or not case.get("opts", {}).get("tls"):
+        return None
+    for op, st in zip(case["ops"], obs.get("steps", [])):
+        if "skip" in st:
+            continue
+        if st["w"]["e"] != st["r"]["e"] or st["w"]["v"] != st["r"]["v"] and st["w"]["e"] != "nil":
+            if op["m"].startswith("BLPop") and st["w"]["e"] == "Other:conn" and st["r"]["e"] == "nil":
+                return "blocking-node-ignores-tls"
+            return None
+    return None
+
+
 def explain(case, obs):
+    if case["kind"] == "runs":
+        return ("per-command breaker runs contradict C12.Exec.spec_ok: on a fresh handle some command answered 30 times in a "
+                "row with redis.Nil / context.Canceled was reported to the breaker as a failure, or calls were rejected "
+                "(ErrServiceUnavailable), or the handle was unusable afterwards")
     if case["kind"] == "sha":
         return ("script cache stream contradicts C12.Exec.spec_ok: some GetSha(script) did not answer the most recent sha "
                 "registered by SetSha for exactly that text (or answered for a text never registered)")
